@@ -1,6 +1,7 @@
 """Per-property check specifications: which contracts (by tag), which bounded stand-ins, claimed level."""
 
 from bounded import props as B
+from bounded import props2 as B2
 
 PROPS = {}
 
@@ -43,6 +44,26 @@ prop("C16", "other",
      "Register/lookup/type-guard contracts (_FormatString.__call__, register, Format._validate, Validator.__call__[Format]) discharged for all "
      "names, values and register contents; the built-in uuid/date-time checkers delegate to uuid.UUID and dateutil, whose behaviour is only bounded.",
      bounded=[B.c16_formats])
+
+prop("C04", "other",
+     "result == build(E, v) clauses of the construct chain under contract where in reach; bounded: every accepted value of the element x value pools is "
+     "compared member by member (names, lengths, scalars, number->float) with the model returned.",
+     bounded=[B2.c04_covers])
+
+prop("C13", "other",
+     "no-memo / frame obligations of the validation call graph (Pass F: every heap write targets a fresh object or a declared idempotent binding field); "
+     "bounded: reconfiguration scenarios interleaved with calls against a freshly built twin.",
+     bounded=[B2.c13_reconfig])
+
+prop("C14", "other",
+     "Sufficient condition proved: the frame obligations of C08 (concurrent calls share only read-only state and same-value binding writes); the quantifier over "
+     "interleavings is discharged by a stated meta-argument (CPython attribute loads/stores are atomic), not enumerated. Bounded: thread smoke test.",
+     bounded=[B2.c14_threads],
+     assumptions=["memory model: CPython attribute loads and stores are atomic and sequentially consistent"])
+
+prop("C15", "other",
+     "ObjectMeta.__new__ merge/clone/frame contract where in reach; bounded: parent/child/grandchild families against flat twins in all orders of define/use/reconfigure.",
+     bounded=[B2.c15_inheritance])
 
 NOT_YET = {}
 FIX_COMMITS = ["240c9e2", "ba1006d", "dab453b", "5a0ad53", "5fe75a7", "1c7b42d", "0339f31", "a857da5", "9e872e5", "85d1ad8", "757eca2", "d1e41a0"]
